@@ -471,20 +471,23 @@ def check_register_size_reaches_encoder(idx: Index, rep: Report):
     (the third-party transform, the dictionary of Majorana images) receives that parameter - checked as dataflow from the parameter to the
     call's arguments."""
     rule = "K7.register-size"
-    wrappers = [("tangelo/toolboxes/qubit_mappings/bravyi_kitaev.py", "bravyi_kitaev", ("openfermion_bravyi_kitaev",)),
-                ("tangelo/toolboxes/qubit_mappings/jkmn.py", "jkmn", ("_jkmn_dict",))]
-    for rel, fname, builders in wrappers:
+    # (file, encoder, its register-size parameter, calls that size a register: openfermion's transforms and re-ordering infer the size from the highest mode the
+    #  operator happens to touch unless they are told)
+    wrappers = [("tangelo/toolboxes/qubit_mappings/bravyi_kitaev.py", "bravyi_kitaev", "n_qubits", ("openfermion_bravyi_kitaev",)),
+                ("tangelo/toolboxes/qubit_mappings/jkmn.py", "jkmn", "n_qubits", ("_jkmn_dict",)),
+                (SCBK, "symmetry_conserving_bravyi_kitaev", "n_spinorbitals", ("reorder", "bravyi_kitaev_tree"))]
+    for rel, fname, size, builders in wrappers:
         f = idx.function(f"{rel}::{fname}")
-        if "n_qubits" not in f.params:
-            raise AnalysisError(f"{fname}: parameter n_qubits not found")
+        if size not in f.params:
+            raise AnalysisError(f"{fname}: parameter {size} not found")
         calls = [c for c in ast.walk(f.node) if isinstance(c, ast.Call) and norm(c.func) in builders]
-        rep.floor(f"{fname}: calls generating the encoding", len(calls), 1)
+        rep.floor(f"{fname}: calls generating the encoding", len(calls), len(builders))
         for c in calls:
             passed = [norm(a) for a in c.args] + [norm(k.value) for k in c.keywords]
-            ok = any(p == "n_qubits" for p in passed)
+            ok = any(p == size for p in passed)
             rep.decide(ok, rule, f, c, text=f"{fname}: {norm(c)[:70]}",
                        what="the caller's register size reaches the call that generates the encoding, so operators that stop below the highest orbital are encoded on the full register",
-                       reason=f"`{norm(c)[:70]}` does not receive n_qubits: the register is sized from the highest orbital the operator happens to touch, so ladder operators and "
+                       reason=f"`{norm(c)[:70]}` does not receive {size}: the register is sized from the highest orbital the operator happens to touch, so ladder operators and "
                               f"products are encoded on different registers and the encoding is no longer one representation")
 
 
